@@ -484,6 +484,8 @@ def run_c20(ctx):
         for batch in chunks(typed_in, 20000):
             ctx.violations += judge_typed(ctx, cfg, batch)
         ctx.count('typed:literals x 12 targets compared across builds', len(typed_in))
+        from checks import ntarget
+        ctx.violations += ntarget.judge_number_target(ctx, cfg, 1500 if ctx.tier == 'quick' else 8000)
     for d in (lits[3], lits[len(lits) // 2], miss[1000], canon[0], free[-1]):
         ctx.sample({'input': d.decode('utf-8', 'replace')[:200], 'input_hex': hx(d)[:400]})
 
